@@ -28,10 +28,13 @@ type tokKnobs struct {
 	// how long the browser is told to keep the cookie: "" as long as the session lives (the cookie provider's MaxAge follows the
 	// codec's); "default" only the codec's lifetime is customised, the provider's stays as shipped; "short"/"long" one minute / a week.
 	// A token is not bound by what the browser was told: the session lifetime is the codec's.
-	CookieLife string         `json:"cookie_lifetime,omitempty"`
-	Deploys    []mwDeployConf `json:"deployments"` // [0] is the target; [1] another deployment
-	SameKey    bool           `json:"other_deployment_shares_key"`
-	OtherDiff  string         `json:"other_deployment_differs_in"` // with a shared key: "both" (its own URL as audience and issuer) | "audience" | "issuer"
+	CookieLife string `json:"cookie_lifetime,omitempty"`
+	// NoLife: the codec's MaxAge is set to zero ("zero") or to minus one minute ("negative") - a hand-built codec, a mis-computed
+	// duration. Such a codec's tokens are never inside their lifetime.
+	NoLife    string         `json:"codec_lifetime_not_positive,omitempty"`
+	Deploys   []mwDeployConf `json:"deployments"` // [0] is the target; [1] another deployment
+	SameKey   bool           `json:"other_deployment_shares_key"`
+	OtherDiff string         `json:"other_deployment_differs_in"` // with a shared key: "both" (its own URL as audience and issuer) | "audience" | "issuer"
 }
 
 type tokStep struct {
@@ -42,6 +45,10 @@ type tokStep struct {
 	Mut   string `json:"mut,omitempty"`
 	Path  string `json:"path,omitempty"`
 	Ms    int64  `json:"ms,omitempty"`
+	// present: the request method ("" GET) and whether it looks like a CORS preflight (Origin + Access-Control-Request-* headers).
+	// Neither says anything about who is asking.
+	Method    string `json:"method,omitempty"`
+	Preflight bool   `json:"cors_preflight_headers,omitempty"`
 }
 
 var tokKinds = []string{"valid", "valid", "valid", "tracking", "other-deployment", "alg-none", "hs256-pem", "hs256-der", "claims-edit", "header-edit", "truncated", "bitflip", "empty", "garbage", "mallory-signed", "wrong-cookie-name",
@@ -54,6 +61,8 @@ func genTokens(g *Rng, tier string) *Plan {
 	k := tokKnobs{LifetimeMs: Pick(g, int64(0), 0, 10_000, 300_000, 86_400_000), SameKey: g.Bool(0.5), OtherDiff: Pick(g, "both", "audience", "issuer")}
 	if k.LifetimeMs > 0 {
 		k.CookieLife = Pick(g, "", "", "default", "default", "short", "long")
+	} else if g.Bool(0.12) {
+		k.NoLife = Pick(g, "zero", "negative")
 	}
 	ec := g.Bool(0.3)
 	k.Deploys = []mwDeployConf{
@@ -88,16 +97,21 @@ func genTokens(g *Rng, tier string) *Plan {
 		life = 3_600_000
 	}
 	p := &Plan{Knobs: mustJSON(k)}
-	steps := []tokStep{{Kind: "login", User: g.Intn(13)}}
+	steps := []tokStep{{Kind: "login", User: g.Intn(16)}}
 	nlogins := 1
 	n := 3 + g.Intn(9)
 	for i := 0; i < n; i++ {
 		switch g.PickW(2, 10, 4, 1) {
 		case 0:
-			steps = append(steps, tokStep{Kind: "login", User: g.Intn(13)})
+			steps = append(steps, tokStep{Kind: "login", User: g.Intn(16)})
 			nlogins++
 		case 1:
-			steps = append(steps, tokStep{Kind: "present", Token: Pick(g, tokKinds...), Login: g.Intn(nlogins), Path: Pick(g, "/page", "/page", "/gated/x", "/nested/x")})
+			ps := tokStep{Kind: "present", Token: Pick(g, tokKinds...), Login: g.Intn(nlogins), Path: Pick(g, "/page", "/page", "/gated/x", "/nested/x")}
+			if g.Bool(0.25) {
+				ps.Method = Pick(g, "POST", "DELETE", "OPTIONS", "OPTIONS", "HEAD", "PUT")
+				ps.Preflight = g.Bool(0.5)
+			}
+			steps = append(steps, ps)
 		case 2:
 			steps = append(steps, tokStep{Kind: "advance", Ms: Pick(g, int64(1000), life/2, life-5000, life-1000, life+1000, life+5000, 2*life)})
 			steps = append(steps, tokStep{Kind: "present", Token: "valid", Login: g.Intn(nlogins), Path: "/page"})
@@ -166,10 +180,13 @@ func execTokens(t *testing.T, p *Plan) *Result {
 	var deploys []*mwDeploy
 	for di, c := range k.Deploys {
 		d := newMWDeploy(c, idpMD, "role", "admin")
-		if k.LifetimeMs > 0 || (di == 1 && k.SameKey && k.OtherDiff != "both") {
+		if k.LifetimeMs > 0 || (k.NoLife != "" && di == 0) || (di == 1 && k.SameKey && k.OtherDiff != "both") {
 			opts := samlsp.Options{URL: mustURL(d.base + "/"), Key: d.kp.Key, Certificate: d.kp.Cert, CookieName: c.CookieName}
 			sp := samlsp.DefaultSessionProvider(opts)
 			codec := samlsp.DefaultSessionCodec(opts)
+			if k.NoLife != "" && di == 0 {
+				codec.MaxAge = map[string]time.Duration{"zero": 0, "negative": -time.Minute}[k.NoLife]
+			}
 			if k.LifetimeMs > 0 {
 				codec.MaxAge = ms(k.LifetimeMs)
 				switch k.CookieLife {
@@ -201,6 +218,14 @@ func execTokens(t *testing.T, p *Plan) *Result {
 	life := ms(k.LifetimeMs)
 	if k.LifetimeMs == 0 {
 		life = time.Hour // the documented default session lifetime of the middleware
+	}
+	switch k.NoLife {
+	case "zero":
+		life = 0
+		res.probe("codec-lifetime-zero")
+	case "negative":
+		life = -time.Minute
+		res.probe("codec-lifetime-negative")
 	}
 	cookieLife := life
 	switch {
@@ -376,7 +401,7 @@ func execTokens(t *testing.T, p *Plan) *Result {
 					expect = "NO_SESSION"
 				default:
 					expect = "DONT_CARE"
-					if age >= 0 && age < 2*time.Second {
+					if age >= 0 && age < 2*time.Second && life > 4*time.Second {
 						expect = "AUTHENTICATED" // just minted, clock not moved back
 					}
 				}
@@ -402,7 +427,18 @@ func execTokens(t *testing.T, p *Plan) *Result {
 			}
 			hitsBefore, gatedBefore := len(d.hits)+len(d.nested), len(d.gated)
 			var rep *reply
-			at(jump, func() { rep = deliver(d.handler, "GET", d.base+st.Path, "", "", cookies) })
+			method, hdr := "GET", http.Header{}
+			if st.Method != "" {
+				method = st.Method
+				res.probe("request-method:" + method)
+			}
+			if st.Preflight {
+				hdr.Set("Origin", "https://app.example.org")
+				hdr.Set("Access-Control-Request-Method", "POST")
+				hdr.Set("Access-Control-Request-Headers", "content-type")
+				res.probe("cors-preflight-headers")
+			}
+			at(jump, func() { rep = deliverH(d.handler, method, d.base+st.Path, "", "", cookies, hdr) })
 			if rep.Panic != nil {
 				res.Excluded = "panic (reported under C09)"
 				return res
